@@ -55,6 +55,7 @@ class CSemantics:
         # Working variables:
         self.compounds = []
         self.switch_stack = []  # switch case levels
+        self.current_function = None
 
     def begin(self):
         """Enter a new file / compilation unit."""
@@ -74,6 +75,16 @@ class CSemantics:
             function.location.filename,
             function.location.row,
         )
+        if not isinstance(function.typ, types.FunctionType):
+            self.error(
+                "A function body requires a function declarator",
+                function.location,
+            )
+        if self.current_function is not None:
+            self.error(
+                "Nested function definitions are not supported",
+                function.location,
+            )
         # Nice clean slate:
         assert not self.switch_stack
         self.current_function = function
